@@ -12,6 +12,8 @@
 (*        pmeth   ordinary method              tometh  @testonly method    *)
 (*        decl    the use is itself a declaration (struct field)           *)
 (*   use  callF d.TF()  -> TONL02        callM s.TM() -> TONL03            *)
+(*        callMvar gs.TM() on a package-level variable declared in another *)
+(*        file, so that the calling file does not import d -> TONL03       *)
 (*        callPF / callPM (un-annotated twins), shadow (a local variable   *)
 (*        named TF is called; d only)    -> nothing                        *)
 (*        litTT, varTT, varPtrTT, fieldTT, paramTT, resultTT (type d.TT),  *)
@@ -33,7 +35,7 @@ VARIABLES prog, fi, ci, ph, skip, reported, diags
 vars == <<prog, fi, ci, ph, skip, reported, diags>>
 
 Ctxs == {"plain", "tofunc", "pmeth", "tometh", "decl"}
-Uses == {"callF", "callM", "callPF", "callPM", "shadow",
+Uses == {"callF", "callM", "callMvar", "callPF", "callPM", "shadow",
          "litTT", "varTT", "varPtrTT", "fieldTT", "paramTT", "resultTT", "litTT2", "litOTT"}
 TypeUses == {"litTT", "varTT", "varPtrTT", "fieldTT", "paramTT", "resultTT", "litTT2", "litOTT"}
 
@@ -57,7 +59,7 @@ InTestCtx(f, c) == f.test \/ c.ctx \in {"tofunc", "tometh"}
 \* candidate code of a use, before the once-per-file rule
 Cand(c, ann) ==
   CASE c.use = "callF" /\ ann.func -> "TONL02"
-    [] c.use = "callM" /\ ann.meth -> "TONL03"
+    [] c.use \in {"callM", "callMvar"} /\ ann.meth -> "TONL03"
     [] c.use \in TypeUses /\ (ann.type \/ c.use = "litOTT") -> "TONL01"   \* o.TT is always annotated
     [] OTHER -> "none"
 
@@ -79,7 +81,7 @@ L1(p) == {<<k[1], k[2], Cand(p.files[k[1]].conts[k[2]], p.ann)>> : k \in {k \in 
 (***************************************************************************)
 (* Program spaces                                                          *)
 (***************************************************************************)
-SeqUses == {"litTT", "varTT", "litTT2", "litOTT", "paramTT", "callF"}
+SeqUses == {"litTT", "varTT", "litTT2", "litOTT", "paramTT", "callF", "callMvar"}
 SeqConts(pkg) == {c \in {Cont(x, u) : x \in {"plain", "tofunc"}, u \in SeqUses} : Valid(c, pkg)}
 
 InitProg ==
